@@ -1236,8 +1236,12 @@ static void uv__stream_io(uv_loop_t* loop, uv__io_t* w, unsigned int events) {
     uv__write(stream);
     uv__write_callbacks(stream);
 
-    /* Write queue drained. */
-    if (uv__queue_empty(&stream->write_queue) &&
+    /* Write queue drained. Not while a connect request started by one of the
+     * write callbacks above is pending: it is waiting for POLLOUT, which
+     * uv__drain() stops.
+     */
+    if (stream->connect_req == NULL &&
+        uv__queue_empty(&stream->write_queue) &&
         uv__queue_empty(&stream->write_completed_queue))
       uv__drain(stream);
   }
